@@ -109,8 +109,8 @@ class BFS:
         for h0 in initial_hists:
             h0 = tuple(h0)
             st = self.build(h0)
+            k = self.canon(h0, st)      # key first: invariants may populate caches
             self.invariant(h0, st)
-            k = self.canon(h0, st)
             if k not in seen:
                 seen.add(k)
                 frontier.append(h0)
@@ -124,8 +124,8 @@ class BFS:
                 nh = hist + (ev,)
                 nst = self.build(nh)
                 self.transitions += 1
+                k = self.canon(nh, nst)  # key first: invariants may populate caches
                 self.invariant(nh, nst)
-                k = self.canon(nh, nst)
                 if k not in seen:
                     if self.max_states is not None and len(seen) >= self.max_states:
                         chk.cap("%s: max_states=%d" % (self.label, self.max_states))
